@@ -11,7 +11,8 @@ PID = "C03"
 META = {
     "level": "exploration",
     "technique": "bounded-exhaustive enumeration of suites x payload lengths on a real sender Transport; every "
-                 "written packet decoded and verified by an independent RFC 4253/5647/OpenSSH-EtM receiver",
+                 "written packet decoded and verified by an independent RFC 4253/5647/OpenSSH-EtM receiver; bounded-"
+                 "exhaustive socket send() answers (short writes, would-block) for a short stream per suite",
     "text": "Unencrypted framing and all 144 cipher x MAC x compression suites, both directions: every payload "
             "length 1..72 (= 4 x 16 + 8, >= 4 periods of the padding formula for block sizes 8 and 16; thorough: "
             "1..600) plus 255, 256, 257, 4095, 4096, 32768, 35000, 65535, 65536, 70000, as one stateful stream per suite; key "
